@@ -1258,6 +1258,13 @@ def main():
         ('define step 10\ndefine show with step begin printf "named={step} positional={}" step println '
          'print step println {step * 2} end\nshow 3\nassign step2 4\nshow step2\n',
          'named=3 positional=3\n3 6\nnamed=4 positional=4\n4 8\n', 'stdout-bytes:loop-or-routine'),
+        # parameters named like internal registers that are no words of the language (power, result,
+        # operand, pc, name, matrix, first_zone): a named field takes the parameter, in every activation
+        ('define report with power result operand pc begin printf "{power} {result} {operand} {pc}" println end\n'
+         'on all\nreport 3 100 "outer" 7\n'
+         'define deeper with name matrix first_zone begin printf "{name}/{matrix}/{first_zone}" println '
+         'if {first_zone > 0} deeper name matrix {first_zone - 1} end\ndeeper "n" 5 1\n',
+         '3 100 outer 7\nn/5/1\nn/5/0\n', 'stdout-bytes:loop-or-routine'),
         ('printf "{:>{}}|" 5 6\n', '     5|\n', 'printf-nested-field'),
         ('assign w 6\nprintf "{:>{w}}|" 5\n', '     5|\n', 'printf-nested-field'),
         ('assign x 5\nprintf "{x.real}|{x.imag}"\n', '5|0\n', 'printf-compound-field-name'),
